@@ -273,6 +273,85 @@ def _cut_after_found_newline(g, fx, n):
     return d.args[0].value if found else None
 
 
+def _cut_by_partition(g, fx, n):
+    """`buf = rest` with `line, sep, rest = X.partition(b'\\n')`, reached
+    only where `sep` is truthy (a line feed was there): returns the
+    separator literal, else None."""
+    v = n.ast.value
+    if not isinstance(v, ast.Name):
+        return None
+    for s in g.of_kind('stmt'):
+        if s.frame is not n.frame or not isinstance(s.ast, ast.Assign) or \
+                len(s.ast.targets) != 1:
+            continue
+        t = s.ast.targets[0]
+        d = s.ast.value
+        if isinstance(t, (ast.Tuple, ast.List)) and len(t.elts) == 3 and \
+                all(isinstance(x, ast.Name) for x in t.elts) and \
+                t.elts[2].id == v.id and isinstance(d, ast.Call) and \
+                isinstance(d.func, ast.Attribute) and \
+                d.func.attr == 'partition' and len(d.args) == 1 and \
+                isinstance(d.args[0], ast.Constant) and \
+                isinstance(d.args[0].value, bytes) and \
+                d.args[0].value.endswith(b'\n') and \
+                'recv_buffer' in ast.unparse(d.func.value):
+            sp = path_of(t.elts[1], s.frame)
+            st = fx.at(n) or frozenset()
+            if holds(st, (True, sp)):
+                return d.args[0].value
+    return None
+
+
+def _match_patterns(g, fx, mv_node, frame, depth=0):
+    """names of the module patterns the match object `mv_node` (a Name in
+    `frame`) can come from - followed through an inlined helper that hands
+    the match back only where it is truthy; None when it cannot be read or
+    may be handed back falsy"""
+    if depth > 3 or not isinstance(mv_node, ast.Name):
+        return None
+    mv = path_of(mv_node, frame)
+    pats = set()
+    defs = [s for s in g.of_kind('stmt') if isinstance(s.ast, ast.Assign)
+            and s.frame is frame and any(
+                isinstance(t, ast.Name) and path_of(t, s.frame) == mv
+                for t in s.ast.targets)]
+    if not defs:
+        return None
+    for s in defs:
+        v = s.ast.value
+        if isinstance(v, ast.Call) and isinstance(v.func, ast.Attribute) and \
+                v.func.attr in ('match', 'search', 'fullmatch') and \
+                isinstance(v.func.value, ast.Name):
+            pats.add(v.func.value.id)
+            continue
+        if isinstance(v, ast.Call):
+            kids = [c for c in getattr(frame, 'children', ())
+                    if c.call is v]
+            if len(kids) != 1:
+                return None
+            kf = kids[0]
+            rets = [r for r in g.of_kind('stmt')
+                    if isinstance(r.ast, ast.Return) and r.frame is kf]
+            if not rets:
+                return None
+            for r in rets:
+                rv = r.ast.value
+                if not isinstance(rv, ast.Name):
+                    return None
+                rp = path_of(rv, kf)
+                st = fx.at(r) or frozenset()
+                if not (holds(st, (True, rp)) or
+                        holds(st, (False, rp + ' is None'))):
+                    return None
+                sub = _match_patterns(g, fx, rv, kf, depth + 1)
+                if sub is None:
+                    return None
+                pats |= sub
+            continue
+        return None
+    return pats
+
+
 def g2(e: Engine, rep: Report, rule: str,
        meths=('recv_line', 'recv_reply')):
     for meth in meths:
@@ -317,6 +396,17 @@ def g2(e: Engine, rep: Report, rule: str,
                         pats.add(s.ast.value.func.value.id)
             nl = [_regex_ends_in_newline(e, ctx.func.module.name, pn)
                   for pn in pats]
+            if not (ok and nl and all(x is True for x in nl)) and ok_shape \
+                    and isinstance(v.slice.lower.func.value, ast.Name):
+                # the match came back from a helper that hands it over only
+                # where it matched
+                got = _match_patterns(g, fx, v.slice.lower.func.value,
+                                      n.frame)
+                if got:
+                    nl2 = [_regex_ends_in_newline(e, ctx.func.module.name,
+                                                  pn) for pn in got]
+                    if all(x is True for x in nl2):
+                        ok, nl, pats = True, nl2, got
             if not (ok and nl and all(x is True for x in nl)):
                 # the same thing without a regex: cut right behind a line
                 # feed that find() located
@@ -324,6 +414,11 @@ def g2(e: Engine, rep: Report, rule: str,
                 if alt:
                     ok, nl = True, [True]
                     pats = {'find(%r)' % alt}
+                else:
+                    alt = _cut_by_partition(g, fx, n)
+                    if alt:
+                        ok, nl = True, [True]
+                        pats = {'partition(%r)' % alt}
             rep.check(ok and nl and all(x is True for x in nl), rule, where,
                       'consumption `%s`' % n.text(50),
                       'bytes are removed from recv_buffer without a '
@@ -1085,6 +1180,7 @@ def g11(e: Engine, rep: Report, rule: str = 'G11'):
                     'recv_line returns no value', loc=ctx.func.loc())
         return
     nul = common.Nullness(g, e)
+    fxg = e.facts(g)
 
     def step(n, label, st0):
         st, ns = st0
@@ -1098,10 +1194,17 @@ def g11(e: Engine, rep: Report, rule: str = 'G11'):
             if isinstance(v, ast.Call) and isinstance(v.func, ast.Attribute) \
                     and v.func.attr in ('match', 'search', 'find', 'index'):
                 st = False                 # a new candidate line
+            if isinstance(v, ast.Call) and isinstance(v.func, ast.Attribute) \
+                    and v.func.attr == 'partition':
+                st = False
             if any(path_of(t, n.frame) == 'self.recv_buffer'
                    for t in n.ast.targets) and isinstance(v, ast.Subscript) \
                     and isinstance(v.slice, ast.Slice) and \
                     v.slice.lower is not None:
+                st = True
+            if any(path_of(t, n.frame) == 'self.recv_buffer'
+                   for t in n.ast.targets) and isinstance(v, ast.Name) and \
+                    _cut_by_partition(g, fxg, n):
                 st = True
         return (st, ns)
     for r in rets:
